@@ -41,6 +41,7 @@ type Pool struct {
 	otherIDs  map[peer.ID]int
 	otherKeys map[string]int
 	junkSigs  map[string]int
+	nOtherIDs int
 }
 
 type rngReader struct{ r *vlib.Rand }
@@ -174,6 +175,12 @@ func (p *Pool) KeyIndex(k crypto.PubKey) int {
 	}
 	n := 500 + len(p.otherKeys)
 	p.otherKeys[string(raw)] = n
+	// the peer ID of a key gets the key's number (the symbolic peer_id is the identity)
+	if id, err := peer.IDFromPublicKey(k); err == nil {
+		if _, seen := p.otherIDs[id]; !seen {
+			p.otherIDs[id] = n
+		}
+	}
 	return n
 }
 
@@ -187,7 +194,8 @@ func (p *Pool) IDIndex(id peer.ID) int {
 	if n, ok := p.otherIDs[id]; ok {
 		return n
 	}
-	n := 1000 + len(p.otherIDs)
+	p.nOtherIDs++
+	n := 1000 + p.nOtherIDs
 	p.otherIDs[id] = n
 	return n
 }
